@@ -213,7 +213,47 @@ fn dec_bits(m: i128, scale: u32) -> [u8; 16] {
 fn gen_extreme(r: &mut Rng, v: &Vocab) -> String {
     let leaf = |r: &mut Rng| if r.chance(0.5) { "@".to_string() } else { ["1", "2", "3", "7", "10"][r.below(5)].to_string() };
     let ops: Vec<&str> = v.binops.iter().copied().filter(|o| ["+", "-", "*"].contains(o)).collect();
-    match r.below(8) {
+    match r.below(10) {
+        8 if !v.aggr.is_empty() => {
+            // towers of small-arity aggregates: min(max(@)), max(1+min(@)), avg(min(@,1),max(2)) ...
+            fn tower(r: &mut Rng, v: &Vocab, d: usize) -> String {
+                if d == 0 {
+                    return if r.chance(0.6) { "@".to_string() } else { ["1", "2", "5"][r.below(3)].to_string() };
+                }
+                let f = r.pick(&v.aggr).to_string();
+                let n = [1usize, 1, 1, 2, 2, 3][r.below(6)];
+                let args: Vec<String> = (0..n)
+                    .map(|i| {
+                        let inner = if i == 0 || r.chance(0.4) { tower(r, v, d - 1) } else { tower(r, v, 0) };
+                        match r.below(4) {
+                            0 => format!("1+{}", inner),
+                            1 => format!("{}^2", inner),
+                            _ => inner,
+                        }
+                    })
+                    .collect();
+                format!("{}({})", f, args.join(","))
+            }
+            let d = [2usize, 2, 3, 4][r.below(4)];
+            let t = tower(r, v, d);
+            if r.chance(0.4) {
+                // several aggregates in one expression
+                let d2 = [1usize, 1, 2][r.below(3)];
+                format!("{}+{}", t, tower(r, v, d2))
+            } else {
+                t
+            }
+        }
+        9 => {
+            // two or more aggregates / function calls side by side
+            if v.aggr.is_empty() {
+                format!("{}(@)+{}(@+1)", v.unary[r.below(v.unary.len())], v.unary[r.below(v.unary.len())])
+            } else {
+                let a = r.pick(&v.aggr).to_string();
+                let b = r.pick(&v.aggr).to_string();
+                format!("{}(1,2)+{}(3,4)", a, b).replace("1,2", ["1,2", "@,1", "@"][r.below(3)])
+            }
+        }
         0 => {
             // deep parentheses: depth 2..=124
             let d = [2usize, 5, 16, 31, 32, 33, 60, 62, 63, 64, 65, 66, 70, 90, 120, 124][r.below(16)];
@@ -461,6 +501,8 @@ impl Pool {
 #[derive(Clone, Debug, Default)]
 pub struct Pool {
     pub n_texts: usize,
+    /// groups of expression ids that are near-duplicates of each other
+    pub sib_groups: Vec<Vec<u32>>,
     pub entries: Vec<Entry>,
     /// expr_id -> entry indices (same evaluator, same text, different placeholders)
     pub by_expr: Vec<Vec<u32>>,
@@ -473,11 +515,45 @@ pub struct PoolSizes {
     pub cross_texts: usize,
     pub malformed_per_ev: usize,
     pub extreme_per_ev: usize,
+    pub sibling_families_per_ev: usize,
+    pub pair_samples_per_ev: usize,
+    pub all_pairs: bool,
     pub max_corpus: usize,
 }
 
 /// Build the candidate pool (oracle fields empty).
-pub fn build_pool(seed: u64, repo: &str, sz: &PoolSizes) -> Pool {
+/// Small compositions of two function names: f(g(..)), f(g(..),..), f(..)+g(..), f(g(f(..))), with arities 1-3.
+/// Used (a) for every pair of the functions a change touches, (b) for a sample (quick) or all (thorough) pairs
+/// of an evaluator's vocabulary. Wrong arities simply give parse errors, which are fine as pool entries.
+fn pair_shapes(f: &str, g: &str, r: &mut Rng, all: bool) -> Vec<String> {
+    let f = f.trim_end_matches('(');
+    let g = g.trim_end_matches('(');
+    let leaf = |r: &mut Rng| ["@", "@", "1", "2", "@+1", "3"][r.below(6)].to_string();
+    let mut out = Vec::new();
+    let shapes: Vec<usize> = if all { (0..9).collect() } else { vec![r.below(9), r.below(9)] };
+    for s in shapes {
+        let (a, b, c) = (leaf(r), leaf(r), leaf(r));
+        out.push(match s {
+            0 => format!("{}({}({}))", f, g, a),
+            1 => format!("{}({}({}),{})", f, g, a, b),
+            2 => format!("{}({}({},{}))", f, g, a, b),
+            3 => format!("{}({}({},{}),{})", f, g, a, b, c),
+            4 => format!("{}({})+{}({})", f, a, g, b),
+            5 => format!("{}({},{})+{}({},{})", f, a, b, g, b, c),
+            6 => format!("{}({}({}({})))", f, g, f, a),
+            7 => format!("{}(1+{}({}))", f, g, a),
+            _ => format!("{}({},{}({}),{})", f, a, g, b, c),
+        });
+    }
+    out
+}
+
+pub struct PoolFocus {
+    pub evs: Vec<Ev>,
+    pub tokens: Vec<String>,
+}
+
+pub fn build_pool(seed: u64, repo: &str, sz: &PoolSizes, focus: Option<&PoolFocus>) -> Pool {
     let mut r = Rng::new(mix(seed, 0x706f6f6c));
     let mut pool = Pool::default();
     let mut seen: BTreeSet<(Ev, String)> = BTreeSet::new();
@@ -600,6 +676,113 @@ pub fn build_pool(seed: u64, repo: &str, sz: &PoolSizes) -> Pool {
             }
             let nph = if t.contains('@') { r.range(2, 4) } else { 1 };
             add_expr(&mut pool, &mut r, e, t, "extreme_shape", nph);
+        }
+    }
+    // (f) families of near-duplicate expressions ("siblings"): equal length, equal prefix or suffix, one small
+    //     difference - what a cache or interner with too weak a key would confuse
+    for e in ALL_EV {
+        let v = vocab(Some(e));
+        for _ in 0..sz.sibling_families_per_ev {
+            let mut fam: Vec<String> = Vec::new();
+            match r.below(4) {
+                0 | 1 => {
+                    // long literals with a common tail and different heads (and the other way round)
+                    let tail_len = [8usize, 8, 9, 10, 12][r.below(5)];
+                    let tail: String = (0..tail_len).map(|_| char::from(b'0' + r.below(10) as u8)).collect();
+                    let n = r.range(2, 4);
+                    let shape = r.below(4);
+                    for _ in 0..n {
+                        let hl = [1usize, 2, 2, 3][r.below(4)];
+                        let head: String = (0..hl).map(|i| char::from(b'0' + if i == 0 { 1 + r.below(9) } else { r.below(10) } as u8)).collect();
+                        let lit = match (shape, v.floats) {
+                            (0, _) | (_, false) => format!("{}{}", head, tail),
+                            (1, true) => format!("{}.{}", head, tail),
+                            (2, true) => format!("0.{}{}", head, tail),
+                            _ => format!("{}{}", tail, head),
+                        };
+                        // i64 literals must fit: keep them under 19 digits
+                        let lit = if !v.floats && lit.len() > 18 { lit[lit.len() - 18..].trim_start_matches('0').to_string() } else { lit };
+                        fam.push(match shape % 2 {
+                            0 => format!("{}+@", lit),
+                            _ => format!("@*{}", lit),
+                        });
+                    }
+                }
+                2 => {
+                    // same shape, one function swapped for another of the same length
+                    let groups: [&[&str]; 4] = [&["sin", "cos", "tan"], &["min", "max", "avg", "med"], &["abs", "exp"], &["ln", "lb"]];
+                    let g: Vec<&str> = groups[r.below(4)].iter().copied().filter(|f| v.unary.contains(f) || v.aggr.contains(f)).collect();
+                    if g.len() >= 2 {
+                        let inner = gen_expr(&mut r, &v, 1, 0.6);
+                        for f in g {
+                            fam.push(format!("{}({})+1", f, inner));
+                        }
+                    }
+                }
+                _ => {
+                    // same text except one digit
+                    let base = gen_expr(&mut r, &v, 2, 0.4);
+                    if let Some(pos) = base.char_indices().filter(|(_, c)| c.is_ascii_digit()).map(|(i, _)| i).last() {
+                        for d in ["1", "2", "7"] {
+                            let mut t = base.clone();
+                            t.replace_range(pos..pos + 1, d);
+                            fam.push(t);
+                        }
+                    }
+                }
+            }
+            fam.retain(|t| t.chars().count() <= 256);
+            fam.sort();
+            fam.dedup();
+            if fam.len() >= 2 {
+                let first_id = pool.by_expr.len() as u32;
+                for t in fam {
+                    let nph = if t.contains('@') { 2 } else { 1 };
+                    add_expr(&mut pool, &mut r, e, t, "sibling_family", nph);
+                }
+                let last_id = pool.by_expr.len() as u32;
+                if last_id >= first_id + 2 {
+                    pool.sib_groups.push((first_id..last_id).collect());
+                }
+            }
+        }
+    }
+    // (g) compositions of pairs of functions: a sample (or all) of each evaluator's vocabulary, and every pair of
+    //     the functions the change under test touches
+    for e in ALL_EV {
+        let v = vocab(Some(e));
+        let names: Vec<&str> = v.unary.iter().chain(v.binary.iter()).chain(v.aggr.iter()).copied().collect();
+        if sz.all_pairs {
+            for f in &names {
+                for g in &names {
+                    for t in pair_shapes(f, g, &mut r, false) {
+                        add_expr(&mut pool, &mut r, e, t, "function_pairs", 2);
+                    }
+                }
+            }
+        } else {
+            for _ in 0..sz.pair_samples_per_ev {
+                let f = names[r.below(names.len())];
+                let g = names[r.below(names.len())];
+                for t in pair_shapes(f, g, &mut r, false) {
+                    add_expr(&mut pool, &mut r, e, t, "function_pairs", 2);
+                }
+            }
+        }
+    }
+    if let Some(fc) = focus {
+        let fnames: Vec<&str> = fc.tokens.iter().filter(|t| t.ends_with('(')).map(|t| t.as_str()).collect();
+        if !fnames.is_empty() && fnames.len() <= 8 {
+            let evs: Vec<Ev> = if fc.evs.is_empty() { ALL_EV.to_vec() } else { fc.evs.clone() };
+            for e in evs {
+                for f in &fnames {
+                    for g in &fnames {
+                        for t in pair_shapes(f, g, &mut r, true) {
+                            add_expr(&mut pool, &mut r, e, t, "change_focus", 3);
+                        }
+                    }
+                }
+            }
         }
     }
     // (c) near-miss malformed strings
